@@ -425,7 +425,11 @@ def run(ctx):
     if not rn.violated:
         raise vlib.Undecided("the reorg model without the lookup rewrite has no counterexample: the property does not depend on it")
     ctx.cov["reorg_model_mutations_detected"] = ["ReorgRewritesLookups=FALSE -> %s" % rn.violated]
-    gr = ctx.tlc_must("BlockExec", cfg(dict(BE_REORG, ExecBeforeSwitchBack="TRUE", GenMode='"leaf"'), "G"), name="G1_reorg_programs", timeout=2400)
+    if quick:
+        gr = ctx.tlc_must("BlockExec", cfg(dict(BE_REORG, ExecBeforeSwitchBack="TRUE", GenMode='"leaf"'), "G"), name="G2_reorg_programs",
+                          timeout=1200, simulate={"num": 150}, depth=40)
+    else:
+        gr = ctx.tlc_must("BlockExec", cfg(dict(BE_REORG, ExecBeforeSwitchBack="TRUE", GenMode='"leaf"'), "G"), name="G1_reorg_programs", timeout=2400)
     rprogs = [v["h"] for v in gr.printed if isinstance(v, dict) and v.get("kind") == "B" and any(b.get("rg") for b in v["h"])]
     rnd.shuffle(rprogs)
     judge(ctx, rcex[:1] + rprogs[:40 if quick else 600], OPTS_REORG3, "reorg3", {0: "ExecBeforeSwitchBack"}, two_processes=False)
